@@ -255,6 +255,9 @@ func runC14(c *kit.Ctx) {
 	}
 
 	// ---- R3 ---------------------------------------------------------------
+	contextOfBackgroundRequestOutlivesItsCreator(c)
+	everyResponseUpdatesTheScanner(c)
+
 	c.StartRule("R3", "Close never blocks", 1)
 	{
 		reach := p.SyncReach([]*ssa.Function{closeFn}, nil)
@@ -426,6 +429,28 @@ func runC14(c *kit.Ctx) {
 					hasScanner = true
 				}
 			}
+			// the renewer lives under the scan's context: a cancelled scan whose caller never calls Next or Close again
+			// must not keep the lease of its region scanner alive for ever
+			underScan := false
+			if len(g.Call.Args) > 0 {
+				v := kit.Root(g.Call.Args[len(g.Call.Args)-2])
+				for _, a := range g.Call.Args {
+					if isCtxType(a) {
+						v = kit.Root(a)
+					}
+				}
+				if ex, ok := v.(*ssa.Extract); ok {
+					if with, ok := ex.Tuple.(*ssa.Call); ok && strings.HasPrefix(kit.CalleeName(with), "context.With") && len(with.Call.Args) > 0 {
+						if parent, ok := kit.Root(with.Call.Args[0]).(*ssa.Call); ok {
+							n := kit.CalleeName(parent)
+							if n == hrpcCall+"Context" || (strings.Contains(n, "/hrpc.") && strings.HasSuffix(n, ").Context")) {
+								underScan = true
+							}
+						}
+					}
+				}
+			}
+			c.Check(underScan, fn, "renewer-under-scan-context", g.Pos(), "the renewer's context is derived from the scan's context", "the lease renewer does not run under the scan's context: when the scan is cancelled and its caller never calls Next or Close again, the renewer keeps renewing the lease of a region scanner that nobody will read or close")
 			c.Check(hasScanner, fn, "renewer-only-with-open-scanner", g.Pos(), "the renew goroutine is started only where a region scanner is known to be open", "the lease renewer is started although no region scanner is open (the response has just exhausted the region): every tick sends renew=true without a scanner id, which opens a scanner on the next region that nobody reads or closes")
 		})
 	}
